@@ -440,7 +440,7 @@ func pureCone(c *Check, fi *FuncInfo) (bool, string, token.Pos) {
 
 func globalStoredOutsideInit(p *Prog, g *ssa.Global) bool {
 	for _, f := range p.MaddyFuncs() {
-		if f.Name() == "init" || strings.HasPrefix(f.Name(), "init#") {
+		if objName(f) == "init" || strings.HasPrefix(f.Name(), "init#") {
 			continue
 		}
 		for _, b := range f.Blocks {
